@@ -154,6 +154,12 @@ func c11Slots() []c11Slot {
 		stmtSlot("for post expression", true, func(e func() Expr) Stmt {
 			return &For{Init: Asg("=", V("n"), N("0")), Cond: Bin("<", V("n"), N("1")), Post: Asg("=", V("n"), Bin("+", Bin("*", e(), N("0")), Bin("+", V("n"), N("1")))), Body: Pr(S("loop"))}
 		}),
+		stmtSlot("for post expression after continue", true, func(e func() Expr) Stmt {
+			return &For{Init: Asg("=", V("n"), N("0")), Cond: Bin("<", V("n"), N("2")), Post: Asg("=", V("n"), Bin("+", Bin("*", e(), N("0")), Bin("+", V("n"), N("1")))), Body: Blk(Pr(S("loop")), &Continue{})}
+		}),
+		stmtSlot("while condition after continue", true, func(e func() Expr) Stmt {
+			return &While{Cond: Bin("&&", Bin("<", &Postfix{"++", V("wn")}, N("2")), Bin("||", e(), N("1"))), Body: Blk(Pr(S("loop")), &Continue{})}
+		}),
 		stmtSlot("for-in iterable", true, func(e func() Expr) Stmt { return &ForIn{V: "v", Iter: Arr_(e()), Body: Pr(S("loop"))} }),
 		exprSlot("match subject", true, func(e Expr) Expr {
 			return &MatchExpr{Subj: e, Cases: []MatchCase{{Pats: []Expr{V("_")}, Body: N("1")}}}
